@@ -156,17 +156,22 @@ def apply_rewrite(state, step):
         if not cands:
             return None
         s = cands[b % len(cands)]
-        k = [0.5, 0.25, 0.6][c % 3]
+        # per-bin fractions: in some bins one part keeps the whole yield (the other part is empty there but
+        # still carries its share of the MC statistical uncertainty, which adds in quadrature)
+        nb_ = len(s["data"])
+        base = [0.5, 0.25, 0.6][c % 3]
+        fr = [[base, 0.0, 1.0, base][(d + 3 * b_) % 4] if (d % 2) else base for b_ in range(nb_)]
         s2 = copy.deepcopy(s)
         s2["name"] = s["name"] + "_b"
         if any(x["name"] == s2["name"] for x in ch["samples"]):
             return None
-        for smp, f in ((s, k), (s2, 1 - k)):
-            smp["data"] = [v * f for v in smp["data"]]
+        for smp, sign in ((s, 0), (s2, 1)):
+            f = [(1 - x) if sign else x for x in fr]
+            smp["data"] = [v * fb for v, fb in zip(smp["data"], f)]
             for m in smp["modifiers"]:
                 if m["type"] == "histosys":
-                    m["data"] = {"lo_data": [v * f for v in m["data"]["lo_data"]],
-                                 "hi_data": [v * f for v in m["data"]["hi_data"]]}
+                    m["data"] = {"lo_data": [v * fb for v, fb in zip(m["data"]["lo_data"], f)],
+                                 "hi_data": [v * fb for v, fb in zip(m["data"]["hi_data"], f)]}
                 elif m["type"] == "staterror":
                     m["data"] = [v / math.sqrt(2) for v in m["data"]]
         ch["samples"].append(s2)
